@@ -252,7 +252,9 @@ class Escapes:
         if isinstance(f, ast.Attribute):
             if f.attr == "decode":
                 codec = n.args[0].value if n.args and isinstance(n.args[0], ast.Constant) else "utf-8"
-                if str(codec).lower() not in LATIN:
+                errs = n.args[1] if len(n.args) > 1 else next((kw.value for kw in n.keywords if kw.arg == "errors"), None)
+                lenient = isinstance(errs, ast.Constant) and errs.value in ("replace", "ignore", "backslashreplace")
+                if str(codec).lower() not in LATIN and not lenient:
                     out.add("UnicodeDecodeError")
                     self.sites[k].append((n.lineno, "UnicodeDecodeError", ".decode(%r)" % codec))
                 return out
